@@ -102,7 +102,9 @@ func (v *Verifier) verifyFunc(key string) {
 		}
 		x.entry = st.clone()
 		c.nEntry = len(c.assert)
+		c.reach = blockReach(fn)
 		x.run(st)
+		c.curBlock = -1
 		for n := range c.notes {
 			rep.Notes = append(rep.Notes, n)
 		}
@@ -150,6 +152,21 @@ func (o *Obligation) queryWith(slice bool) string {
 	var keep []bool
 	if slice {
 		keep = c.relevant(o.nAssert, append([]string{final}, o.extra...))
+	}
+	// path slicing: facts recorded while executing a block that cannot reach the
+	// obligation's block describe other paths only
+	if o.block >= 0 && c.reach != nil && os.Getenv("GOVC_NO_PATHSLICE") == "" {
+		if keep == nil {
+			keep = make([]bool, o.nAssert)
+			for i := range keep {
+				keep[i] = true
+			}
+		}
+		for i := 0; i < o.nAssert && i < len(c.assertBlk); i++ {
+			if blk := c.assertBlk[i]; blk >= 0 && blk < len(c.reach) && !c.reach[blk][o.block] {
+				keep[i] = false
+			}
+		}
 	}
 	for i, a := range c.assert[:o.nAssert] {
 		if keep == nil || keep[i] {
@@ -517,3 +534,30 @@ func (v *Verifier) incremental(obls []*Obligation, todo []int, jobs int, names [
 	return left
 }
 
+
+// blockReach[a][b]: block b is reachable from block a (reflexive) without
+// taking a back edge.
+func blockReach(fn *ssa.Function) [][]bool {
+	n := len(fn.Blocks)
+	r := make([][]bool, n)
+	for i := range r {
+		r[i] = make([]bool, n)
+		var stack []*ssa.BasicBlock
+		stack = append(stack, fn.Blocks[i])
+		r[i][i] = true
+		for len(stack) > 0 {
+			b := stack[len(stack)-1]
+			stack = stack[:len(stack)-1]
+			for _, s := range b.Succs {
+				if s.Dominates(b) {
+					continue // back edge: an earlier block of the next iteration starts from the havocked loop head
+				}
+				if !r[i][s.Index] {
+					r[i][s.Index] = true
+					stack = append(stack, s)
+				}
+			}
+		}
+	}
+	return r
+}
